@@ -27,6 +27,128 @@ func streamRealSeq(c *ctx) {
 	realNonceMaterial(c)
 	realObjectHistories(c)
 	realPeerMultiSign(c)
+	realPeerSingle(c)
+}
+
+// an empty protected bucket as a peer may validly write it: the zero-length string, an explicit empty map, an empty
+// map with a one-byte length head
+func emptyProtectedForms() [][]byte {
+	return [][]byte{{}, {0xa0}, {0xb8, 0x00}}
+}
+
+// D  the five single-layer / recipient kinds written by a peer (C04, C01): the protected bucket in every valid form
+//
+//	(empty in three forms, non-shortest heads, another key order, extra parameters); the structure is written here, the
+//	signature / tag / ciphertext made by calling the real primitive on it; the library must accept the message and hand
+//	the primitive exactly that structure.
+func realPeerSingle(c *ctx) {
+	rounds := c.n(1, 6)
+	direct := &citem{kind: 4, l: []*citem{{kind: 2, b: []byte{}}, {kind: 5, m: [][2]*citem{{{kind: 0, n: 1}, {kind: 1, n: 5}}}}, {kind: 2, b: []byte{}}}}
+	for round := 0; round < rounds; round++ {
+		for _, a := range allAlgs {
+			alg := a.alg
+			var kinds []string
+			switch {
+			case alg < 0:
+				kinds = []string{"KSign1"}
+			case (alg >= 4 && alg <= 7) || alg == 14 || alg == 15 || alg == 25 || alg == 26:
+				kinds = []string{"KMac0", "KMac"}
+			default:
+				kinds = []string{"KEnc0", "KEnc"}
+			}
+			forms := append(emptyProtectedForms(), protectedForms(c, alg)...)
+			for _, kind := range kinds {
+				for fi, prot := range forms {
+					if !c.thorough() && fi >= 3 && (fi+round+alg)%2 == 0 {
+						continue
+					}
+					k, err := genKeyFor(alg)
+					if err != nil {
+						continue
+					}
+					payload := c.r.bytes(pick(c.r, []int{1, 20, 70}))
+					ext := c.r.bytes(c.r.intn(4))
+					var msg *citem
+					var want []byte
+					ok := true
+					switch kind {
+					case "KSign1":
+						want = rfcStructure("Signature1", prot, nil, ext, payload, false, true)
+						s, e := k.Signer()
+						if e != nil {
+							ok = false
+							break
+						}
+						sig, e := s.Sign(want)
+						ok = e == nil
+						msg = &citem{kind: 6, n: 18, v: &citem{kind: 4, l: []*citem{{kind: 2, b: prot}, {kind: 5}, {kind: 2, b: payload}, {kind: 2, b: sig}}}}
+					case "KMac0", "KMac":
+						ctxs := "MAC0"
+						if kind == "KMac" {
+							ctxs = "MAC"
+						}
+						want = rfcStructure(ctxs, prot, nil, ext, payload, false, true)
+						m, e := k.MACer()
+						if e != nil {
+							ok = false
+							break
+						}
+						tag, e := m.MACCreate(want)
+						ok = e == nil
+						l := []*citem{{kind: 2, b: prot}, {kind: 5}, {kind: 2, b: payload}, {kind: 2, b: tag}}
+						tagN := uint64(17)
+						if kind == "KMac" {
+							l = append(l, &citem{kind: 4, l: []*citem{direct}})
+							tagN = 97
+						}
+						msg = &citem{kind: 6, n: tagN, v: &citem{kind: 4, l: l}}
+					default:
+						ctxs := "Encrypt0"
+						if kind == "KEnc" {
+							ctxs = "Encrypt"
+						}
+						want = rfcStructure(ctxs, prot, nil, ext, nil, false, false)
+						e, er := k.Encryptor()
+						if er != nil {
+							ok = false
+							break
+						}
+						iv := c.r.bytes(e.NonceSize())
+						ct, er := e.Encrypt(iv, payload, want)
+						ok = er == nil
+						l := []*citem{{kind: 2, b: prot}, {kind: 5, m: [][2]*citem{{{kind: 0, n: 5}, {kind: 2, b: iv}}}}, {kind: 2, b: ct}}
+						tagN := uint64(16)
+						if kind == "KEnc" {
+							l = append(l, &citem{kind: 4, l: []*citem{direct}})
+							tagN = 96
+						}
+						msg = &citem{kind: 6, n: tagN, v: &citem{kind: 4, l: l}}
+					}
+					if !ok || msg == nil {
+						continue
+					}
+					data := msg.enc(nil)
+					line := short(fmt.Sprintf("realseq-peer|%s|alg=%d|protected=%x|%x|ext=%x", kind, alg, prot, data, ext))
+					var seen [][]byte
+					var got []byte
+					var cerr error
+					p, pm := catch(func() { got, _, cerr = consumeReal(kind, k, data, ext, &seen) })
+					c.eval()
+					c.nontriv(fmt.Sprintf("peer|%s|%d|%d|%v", kind, alg, fi, cerr == nil))
+					c.count(fmt.Sprintf("peer %s protected form %d accepted=%v", kind, fi, cerr == nil && !p))
+					if p || cerr != nil || !bytes.Equal(got, payload) {
+						c.fail(failure{Op: "real-peer", What: "a message a peer wrote with a valid but different encoding of the protected bucket is not accepted", Input: line,
+							Observed: short(fmt.Sprintf("panic=%v %s err=%v payload=%x", p, pm, cerr, got)), Expected: fmt.Sprintf("payload=%x", payload), Case: line, Theorem: "C04_verifier_recomputes_from_wire_bytes"})
+						continue
+					}
+					if len(seen) != 1 || !bytes.Equal(seen[0], want) {
+						c.fail(failure{Op: "real-peer", What: "the primitive was handed bytes other than the RFC 9052 structure of the received protected bytes", Input: line,
+							Observed: short(fmt.Sprintf("%x", seen)), Expected: short(fmt.Sprintf("%x", want)), Case: line, Theorem: "C04_verifier_recomputes_from_wire_bytes"})
+					}
+				}
+			}
+		}
+	}
 }
 
 var aeadAlgs = []int{1, 2, 3, 24, 10, 11, 12, 13, 30, 31, 32, 33}
@@ -217,58 +339,77 @@ func realObjectHistories(c *ctx) {
 					c.fail(failure{Op: "real-object", What: "producing a message with a generated key failed", Input: line, Observed: perr.Error(), Expected: "bytes", Case: line})
 					continue
 				}
-				received := append([]byte{}, data...)
-				obj, consume := newRealObj(kind)
-				if err := obj.UnmarshalCBOR(data); err != nil {
-					c.fail(failure{Op: "real-object", What: "a produced message does not decode", Input: line, Observed: err.Error(), Expected: "decoded", Case: line})
-					continue
-				}
-				step := func(name string, kk key.Key, e []byte, wantOK bool) bool {
-					var got []byte
-					var cerr error
-					p, pm := catch(func() { got, cerr = consume(kk, e) })
-					c.eval()
-					c.nontriv(fmt.Sprintf("object|%s|%d|%s|%v", kind, alg, name, cerr == nil))
-					ok := !p && (cerr == nil) == wantOK && (!wantOK || bytes.Equal(got, payload))
-					if !ok {
-						c.fail(failure{Op: "real-object", What: "history on one decoded message object: step '" + name + "' does not behave as on a fresh object", Input: line + "|history up to " + name,
-							Observed: short(fmt.Sprintf("panic=%v %s err=%v payload=%x", p, pm, cerr, got)), Expected: fmt.Sprintf("accepted=%v payload=%x", wantOK, payload), Case: line})
+				data0, ext0 := data, ext
+				for _, hist := range []int{c.r.intn(3), 3} {
+					data, ext := append([]byte{}, data0...), append([]byte{}, ext0...)
+					received := append([]byte{}, data...)
+					obj, consume := newRealObj(kind)
+					if err := obj.UnmarshalCBOR(data); err != nil {
+						c.fail(failure{Op: "real-object", What: "a produced message does not decode", Input: line, Observed: err.Error(), Expected: "decoded", Case: line})
+						continue
 					}
-					return ok
-				}
-				reenc := func(name string) bool {
-					out, err := obj.MarshalCBOR()
-					c.eval()
-					if err != nil || !bytes.Equal(out, received) {
-						c.fail(failure{Op: "real-object", What: "a decoded message encodes to other bytes than those received (" + name + ")", Input: line + "|" + name,
-							Observed: short(fmt.Sprintf("%x err=%v", out, err)), Expected: short(fmt.Sprintf("%x", received)), Case: line})
-						return false
+					step := func(name string, kk key.Key, e []byte, wantOK bool) bool {
+						var got []byte
+						var cerr error
+						p, pm := catch(func() { got, cerr = consume(kk, e) })
+						c.eval()
+						c.nontriv(fmt.Sprintf("object|%s|%d|%s|%v", kind, alg, name, cerr == nil))
+						ok := !p && (cerr == nil) == wantOK && (!wantOK || bytes.Equal(got, payload))
+						if !ok {
+							c.fail(failure{Op: "real-object", What: "history on one decoded message object: step '" + name + "' does not behave as on a fresh object", Input: line + "|history up to " + name,
+								Observed: short(fmt.Sprintf("panic=%v %s err=%v payload=%x", p, pm, cerr, got)), Expected: fmt.Sprintf("accepted=%v payload=%x", wantOK, payload), Case: line})
+						}
+						return ok
 					}
-					return true
-				}
-				if !bytes.Equal(data, received) {
-					c.fail(failure{Op: "real-object", What: "decoding changed the caller's bytes", Input: line, Observed: short(fmt.Sprintf("%x", data)), Expected: short(fmt.Sprintf("%x", received)), Case: line})
-				}
-				hist := c.r.intn(3)
-				switch hist {
-				case 0: // consume, encode, consume, encode
-					_ = step("consume", k, ext, true) && reenc("after a successful consume") && step("consume again", k, ext, true) && reenc("after two consumes")
-				case 1: // refused attempts first
-					_ = step("wrong key", k2, ext, false) && reenc("after a refused consume") && step("wrong external data", k, append(append([]byte{}, ext...), 1), false) &&
-						step("consume", k, ext, true) && reenc("after refused and successful consumes")
-				default: // encode first, then twice
-					_ = reenc("before any consume") && step("consume", k, ext, true) && step("wrong key", k2, ext, false) && step("consume again", k, ext, true) && reenc("at the end")
-				}
-				if !bytes.Equal(data, received) {
-					c.fail(failure{Op: "real-object", What: "consuming a decoded message changed the bytes it was decoded from", Input: line, Observed: short(fmt.Sprintf("%x", data)), Expected: short(fmt.Sprintf("%x", received)), Case: line})
-				}
-				// the re-encoded bytes are a message of their own: accepted by a fresh object
-				if out, err := obj.MarshalCBOR(); err == nil {
-					var seen [][]byte
-					got, _, cerr := consumeReal(kind, k, out, ext, &seen)
-					c.eval()
-					if cerr != nil || !bytes.Equal(got, payload) {
-						c.fail(failure{Op: "real-object", What: "the re-encoding of a consumed message is not accepted", Input: line, Observed: short(fmt.Sprintf("err=%v payload=%x", cerr, got)), Expected: fmt.Sprintf("payload=%x", payload), Case: line})
+					reenc := func(name string) bool {
+						out, err := obj.MarshalCBOR()
+						c.eval()
+						if err != nil || !bytes.Equal(out, received) {
+							c.fail(failure{Op: "real-object", What: "a decoded message encodes to other bytes than those received (" + name + ")", Input: line + "|" + name,
+								Observed: short(fmt.Sprintf("%x err=%v", out, err)), Expected: short(fmt.Sprintf("%x", received)), Case: line})
+							return false
+						}
+						return true
+					}
+					if !bytes.Equal(data, received) {
+						c.fail(failure{Op: "real-object", What: "decoding changed the caller's bytes", Input: line, Observed: short(fmt.Sprintf("%x", data)), Expected: short(fmt.Sprintf("%x", received)), Case: line})
+					}
+					switch hist {
+					case 3: // the caller keeps one buffer for the external data and refills it between calls
+						buf := append([]byte{}, ext...)
+						if len(buf) == 0 {
+							buf = []byte("session-0001")
+							ext = append([]byte{}, buf...)
+							data2, e2 := produceReal(kind, k, payload, ext)
+							if e2 != nil || obj.UnmarshalCBOR(data2) != nil {
+								break
+							}
+							data, received = data2, append([]byte{}, data2...)
+						}
+						okc := step("consume (external data in a caller's buffer)", k, buf, true)
+						buf[len(buf)-1] ^= 0x03
+						okc = okc && step("wrong external data (the same buffer, rewritten in place)", k, buf, false)
+						buf[len(buf)-1] ^= 0x03
+						_ = okc && step("consume again (buffer restored)", k, buf, true) && reenc("after the buffer history")
+					case 0: // consume, encode, consume, encode
+						_ = step("consume", k, ext, true) && reenc("after a successful consume") && step("consume again", k, ext, true) && reenc("after two consumes")
+					case 1: // refused attempts first
+						_ = step("wrong key", k2, ext, false) && reenc("after a refused consume") && step("wrong external data", k, append(append([]byte{}, ext...), 1), false) &&
+							step("consume", k, ext, true) && reenc("after refused and successful consumes")
+					default: // encode first, then twice
+						_ = reenc("before any consume") && step("consume", k, ext, true) && step("wrong key", k2, ext, false) && step("consume again", k, ext, true) && reenc("at the end")
+					}
+					if !bytes.Equal(data, received) {
+						c.fail(failure{Op: "real-object", What: "consuming a decoded message changed the bytes it was decoded from", Input: line, Observed: short(fmt.Sprintf("%x", data)), Expected: short(fmt.Sprintf("%x", received)), Case: line})
+					}
+					// the re-encoded bytes are a message of their own: accepted by a fresh object
+					if out, err := obj.MarshalCBOR(); err == nil {
+						var seen [][]byte
+						got, _, cerr := consumeReal(kind, k, out, ext, &seen)
+						c.eval()
+						if cerr != nil || !bytes.Equal(got, payload) {
+							c.fail(failure{Op: "real-object", What: "the re-encoding of a consumed message is not accepted", Input: line, Observed: short(fmt.Sprintf("err=%v payload=%x", cerr, got)), Expected: fmt.Sprintf("payload=%x", payload), Case: line})
+						}
 					}
 				}
 			}
@@ -405,8 +546,12 @@ func newRealObj(kind string) (realObj, func(k key.Key, ext []byte) ([]byte, erro
 // protectedForms returns encodings of a signer's protected bucket {1: alg, ...} that are valid and pairwise different
 // as byte strings.
 func protectedForms(c *ctx, alg int) [][]byte {
-	n := uint64(-1 - alg)
-	algItem := func(w int) *citem { return &citem{kind: 1, n: n, width: w} }
+	algItem := func(w int) *citem {
+		if alg >= 0 {
+			return &citem{kind: 0, n: uint64(alg), width: w}
+		}
+		return &citem{kind: 1, n: uint64(-1 - alg), width: w}
+	}
 	one := func(w int) *citem { return &citem{kind: 0, n: 1, width: w} }
 	mk := func(m ...[2]*citem) []byte { return (&citem{kind: 5, m: m}).enc(nil) }
 	ct := [2]*citem{{kind: 0, n: 3}, {kind: 0, n: 60}}
@@ -430,8 +575,8 @@ func realPeerMultiSign(c *ctx) {
 		nsig := 2 + c.r.intn(2)
 		payload := c.r.bytes(pick(c.r, []int{0, 5, 40}))
 		ext := c.r.bytes(c.r.intn(4))
-		bodyProt := []byte{}
-		if c.r.bool() {
+		bodyProt := pick(c.r, emptyProtectedForms())
+		if c.r.intn(3) == 0 {
 			bodyProt = (&citem{kind: 5, m: [][2]*citem{{{kind: 0, n: 3}, {kind: 0, n: 0, width: 1}}}}).enc(nil)
 		}
 		var verifiers key.Verifiers
